@@ -396,8 +396,10 @@ def finish(ctx, level, coverage, assumptions=None):
     }
     ev["coverage"]["known_findings_matched"] = sum(n for _, n in known_hit.values())
     if ctx.replay is None:
-        os.makedirs(os.path.join(VERIF, "evidence"), exist_ok=True)
-        with open(os.path.join(VERIF, "evidence", f"{ctx.prop}.json"), "w") as fh:
+        # runs against a deliberately broken tree (bin/seedtest) keep the committed evidence untouched
+        evdir = os.environ.get("VERIF_EVIDENCE_DIR") or os.path.join(VERIF, "evidence")
+        os.makedirs(evdir, exist_ok=True)
+        with open(os.path.join(evdir, f"{ctx.prop}.json"), "w") as fh:
             json.dump(ev, fh, indent=1)
     log(f"[{ctx.prop}] tier={ctx.tier} wall={wall:.1f}s violations={len(reported)} known={sum(n for _, n in known_hit.values())}")
     return 1 if reported else 0
